@@ -89,7 +89,7 @@ def build_population(case):
     from pybrops.model.gmod.DenseAdditiveDominanceLinearGenomicModel import DenseAdditiveDominanceLinearGenomicModel
     n, p, t = case["n"], case["p"], case["t"]
     rs = numpy.random.RandomState(case["gseed"])
-    geno = rs.randint(0, 2, size=(2, n, p)).astype("int8")
+    geno = rs.randint(0, 2, size=(int(case.get("ploidy", 2)), n, p)).astype("int8")
     if case.get("clone") and n >= 2:        # two taxa with identical genotypes (ties in genotypic value)
         geno[:, 1, :] = geno[:, 0, :]
     if case.get("all_clones") and n >= 2:   # a fixed population: every taxon carries the same genotype, no variance among taxa
@@ -140,9 +140,10 @@ def oracle_gv(pop, dominance=None):
         for k in range(t):
             g = float(beta[0, k])
             for j in range(p):
-                c = int(geno[0, i, j]) + int(geno[1, i, j])
+                m_ = geno.shape[0]                                   # number of chromosome copies (ploidy)
+                c = sum(int(geno[h, i, j]) for h in range(m_))
                 g += c * float(u_a[j, k])
-                if dominance and c == 1:
+                if dominance and 0 < c < m_:                         # heterozygous: neither all copies 0 nor all copies 1
                     g += float(u_d[j, k])
             out[i][k] = g
     return out
@@ -676,7 +677,8 @@ def gen_herit_cases(rnd, tier):
                  rng=rnd.choice(["scripted", "recorded"]), zero_trait=rnd.choice([None] * 30 + [0, 1]),
                  # exact (dyadic) values only here: a trait without genetic variance must have variance exactly 0 for the
                  # "target undefined" clause, which rounding of non-dyadic common values would blur
-                 decimal_intercept=False, all_clones=False)
+                 decimal_intercept=False, all_clones=False,
+                 ploidy=rnd.choice([2, 2, 2, 1, 4]))          # heritability targets hold for haploid and tetraploid populations too
         if rnd.random() < 0.5:
             c["model"] = "AD"       # additive variance != genotypic variance
         yield c
